@@ -77,6 +77,14 @@ type Case struct {
 	// every key, algorithm and entry point in the process then happens concurrently (lazily filled
 	// package-level caches and tables are written in the concurrent phase, not warmed up alone)
 	SoloAfter bool `json:"alone_after_concurrent,omitempty"`
+	// message sizes: round trip j of worker w works on a message of Sizes[(w + j*G) mod len] bytes (made legal for
+	// the algorithm: multiples of 8 / 16 for AES-KW / CBC without padding, at most the RSA limit); empty = the
+	// small random sizes of the family
+	Sizes []int `json:"sizes,omitempty"`
+	// every byte slice the library hands out (ciphertext, tag, plaintext, signature, serialisation, stream
+	// contents) is KEPT by the caller with a private copy and looked at again after later calls — its own and the
+	// other callers' — and when everything has finished: a result already handed out must never change
+	Hold bool `json:"keep_results,omitempty"`
 }
 
 type Diff struct {
@@ -189,6 +197,7 @@ func (ks *keyStore) ec(curve string, w int) *ecdsa.PrivateKey {
 // intermediate value and "" (or the failure, which then is the result of the round trip); b
 // returns the canonical result.
 type worker struct {
+	keep      func(j int, name string, b []byte) // called with every byte slice the library hands out (no-op unless the case keeps results)
 	alg       string
 	supported bool // listed by the package as supported: alone, the round trip must restore the message
 	a         func(j int) (any, string)
@@ -326,7 +335,9 @@ func mkWorker(c Case, w int, ks *keyStore) (*worker, error) {
 	}
 	d := c.Distinct
 	rng := lib.NewRand(c.Seed*1000003 + uint64(w)*7919 + 17)
-	wk := &worker{alg: alg, supported: supportedBy(c.Family, alg)}
+	wk := &worker{alg: alg, supported: supportedBy(c.Family, alg), keep: func(int, string, []byte) {}}
+	sized := len(c.Sizes) > 0
+	sizeOf := func(j int) int { return c.Sizes[(w+j*c.G)%len(c.Sizes)] }
 	switch c.Family {
 	case "asym", "asym-generic":
 		generic := c.Family == "asym-generic"
@@ -360,6 +371,11 @@ func mkWorker(c Case, w int, ks *keyStore) (*worker, error) {
 			if j == 0 {
 				n = maxLen
 			}
+			if sized {
+				if n = sizeOf(j); n > maxLen {
+					n = maxLen - n%2
+				}
+			}
 			msgs[j] = rng.Bytes(n)
 			if (w+j)%3 != 0 {
 				labels[j] = []byte(fmt.Sprintf("label of worker %d, message %d", w, j))
@@ -376,6 +392,7 @@ func mkWorker(c Case, w int, ks *keyStore) (*worker, error) {
 			if err != nil {
 				return nil, "encrypt=" + errStr(err)
 			}
+			wk.keep(j, "ciphertext", ct)
 			return ct, ""
 		}
 		wk.b = func(j int, mid any) string {
@@ -389,6 +406,7 @@ func mkWorker(c Case, w int, ks *keyStore) (*worker, error) {
 			if err != nil {
 				return "decrypt=" + errStr(err)
 			}
+			wk.keep(j, "plaintext", pt)
 			if !bytes.Equal(pt, msgs[j]) {
 				return fmt.Sprintf("WRONG-PLAINTEXT(len %d for %d)", len(pt), len(msgs[j]))
 			}
@@ -420,6 +438,9 @@ func mkWorker(c Case, w int, ks *keyStore) (*worker, error) {
 		for j := range msgs {
 			if alg == "EdDSA" {
 				msgs[j] = rng.Bytes(rng.Intn(300))
+				if sized {
+					msgs[j] = rng.Bytes(sizeOf(j))
+				}
 			} else {
 				msgs[j] = rng.Bytes(shaLen(alg))
 			}
@@ -429,6 +450,7 @@ func mkWorker(c Case, w int, ks *keyStore) (*worker, error) {
 			if err != nil {
 				return nil, "sign=" + errStr(err)
 			}
+			wk.keep(j, "signature", sig)
 			return sig, ""
 		}
 		wk.b = func(j int, mid any) string {
@@ -471,6 +493,17 @@ func mkWorker(c Case, w int, ks *keyStore) (*worker, error) {
 			case nopad:
 				n = 16 * rng.Intn(60)
 			}
+			if sized {
+				n = sizeOf(j)
+				switch {
+				case kw && nl == 0:
+					if n = n / 8 * 8; n < 16 {
+						n = 16
+					}
+				case nopad:
+					n = n / 16 * 16
+				}
+			}
 			msgs[j] = rng.Bytes(n)
 			nonces[j] = rng.Bytes(nl)
 			if aad && j%3 != 0 {
@@ -488,6 +521,8 @@ func mkWorker(c Case, w int, ks *keyStore) (*worker, error) {
 			if err != nil {
 				return nil, "encrypt=" + errStr(err)
 			}
+			wk.keep(j, "ciphertext", ct)
+			wk.keep(j, "tag", tag)
 			return symMid{ct, tag}, ""
 		}
 		wk.b = func(j int, mid any) string {
@@ -502,6 +537,7 @@ func mkWorker(c Case, w int, ks *keyStore) (*worker, error) {
 			if err != nil {
 				return "ct=" + h8(m.ct, m.tag) + " decrypt=" + errStr(err)
 			}
+			wk.keep(j, "plaintext", pt)
 			if !bytes.Equal(pt, msgs[j]) {
 				return "ct=" + h8(m.ct, m.tag) + " WRONG-PLAINTEXT"
 			}
@@ -516,12 +552,20 @@ func mkWorker(c Case, w int, ks *keyStore) (*worker, error) {
 		msgs := make([][]byte, d)
 		for j := range msgs {
 			msgs[j] = rng.Bytes(16 + 8*rng.Intn(8))
+			if sized {
+				n := sizeOf(j) / 8 * 8
+				if n < 16 {
+					n = 16
+				}
+				msgs[j] = rng.Bytes(n)
+			}
 		}
 		wk.a = func(j int) (any, string) {
 			ct, err := aeskw.Wrap(block, msgs[j])
 			if err != nil {
 				return nil, "wrap=" + errStr(err)
 			}
+			wk.keep(j, "wrapped key", ct)
 			return ct, ""
 		}
 		wk.b = func(j int, mid any) string {
@@ -529,6 +573,7 @@ func mkWorker(c Case, w int, ks *keyStore) (*worker, error) {
 			if err != nil {
 				return "ct=" + h8(mid.([]byte)) + " unwrap=" + errStr(err)
 			}
+			wk.keep(j, "unwrapped key", pt)
 			if !bytes.Equal(pt, msgs[j]) {
 				return "ct=" + h8(mid.([]byte)) + " WRONG-PLAINTEXT"
 			}
@@ -553,19 +598,25 @@ func mkWorker(c Case, w int, ks *keyStore) (*worker, error) {
 		msgs, nonces, ads := make([][]byte, d), make([][]byte, d), make([][]byte, d)
 		for j := range msgs {
 			msgs[j] = rng.Bytes(rng.Intn(1200))
+			if sized {
+				msgs[j] = rng.Bytes(sizeOf(j))
+			}
 			nonces[j] = rng.Bytes(aead.NonceSize())
 			if j%3 != 0 {
 				ads[j] = rng.Bytes(rng.Intn(40))
 			}
 		}
 		wk.a = func(j int) (any, string) {
-			return aead.Seal(nil, nonces[j], msgs[j], ads[j]), ""
+			sealed := aead.Seal(nil, nonces[j], msgs[j], ads[j])
+			wk.keep(j, "sealed message", sealed)
+			return sealed, ""
 		}
 		wk.b = func(j int, mid any) string {
 			pt, err := aead.Open(nil, nonces[j], mid.([]byte), ads[j])
 			if err != nil {
 				return "ct=" + h8(mid.([]byte)) + " open=" + errStr(err)
 			}
+			wk.keep(j, "plaintext", pt)
 			if !bytes.Equal(pt, msgs[j]) {
 				return "ct=" + h8(mid.([]byte)) + " WRONG-PLAINTEXT"
 			}
@@ -576,6 +627,9 @@ func mkWorker(c Case, w int, ks *keyStore) (*worker, error) {
 		sizes := make([]int, d)
 		for j := range msgs {
 			msgs[j] = rng.Bytes(rng.Intn(700))
+			if sized {
+				msgs[j] = rng.Bytes(sizeOf(j))
+			}
 			sizes[j] = rng.Range(2, 255)
 			if j%9 == 8 {
 				sizes[j] = []int{0, 1, 256, -3}[rng.Intn(4)]
@@ -586,6 +640,7 @@ func mkWorker(c Case, w int, ks *keyStore) (*worker, error) {
 			if err != nil {
 				return nil, "pad=" + errStr(err)
 			}
+			wk.keep(j, "padded message", out)
 			return out, ""
 		}
 		wk.b = func(j int, mid any) string {
@@ -593,6 +648,7 @@ func mkWorker(c Case, w int, ks *keyStore) (*worker, error) {
 			if err != nil {
 				return "padded=" + h8(mid.([]byte)) + " unpad=" + errStr(err)
 			}
+			wk.keep(j, "unpadded message", pt)
 			if !bytes.Equal(pt, msgs[j]) {
 				return "padded=" + h8(mid.([]byte)) + " WRONG-MESSAGE"
 			}
@@ -620,6 +676,7 @@ func mkWorker(c Case, w int, ks *keyStore) (*worker, error) {
 			if err != nil {
 				return fmt.Sprintf("type=%s serialize=%s", k.KeyType(), errStr(err))
 			}
+			wk.keep(j, "serialised key", ser)
 			return fmt.Sprintf("ok type=%s ser=%s", k.KeyType(), h8(ser))
 		}
 	case "pem":
@@ -638,6 +695,7 @@ func mkWorker(c Case, w int, ks *keyStore) (*worker, error) {
 			if err != nil {
 				return nil, "encode=" + errStr(err)
 			}
+			wk.keep(j, "PEM", p)
 			return p, ""
 		}
 		wk.b = func(j int, mid any) string {
@@ -691,6 +749,9 @@ func mkWorker(c Case, w int, ks *keyStore) (*worker, error) {
 		msgs := make([][]byte, d)
 		for j := range msgs {
 			msgs[j] = rng.Bytes([]int{100, 0, 70000, 1, 65536, 3000}[(w+j)%6])
+			if sized {
+				msgs[j] = rng.Bytes(sizeOf(j))
+			}
 		}
 		wk.a = func(j int) (any, string) {
 			opts := enc.EncryptOptions{Algorithm: enc.KeyAlgorithm(alg), KeyName: keyName,
@@ -709,6 +770,7 @@ func mkWorker(c Case, w int, ks *keyStore) (*worker, error) {
 			if err != nil {
 				return nil, "encrypt-stream=" + errStr(err)
 			}
+			wk.keep(j, "encrypted document", doc)
 			return doc, ""
 		}
 		wk.b = func(j int, mid any) string {
@@ -726,6 +788,7 @@ func mkWorker(c Case, w int, ks *keyStore) (*worker, error) {
 			if err != nil {
 				return "decrypt-stream=" + errStr(err)
 			}
+			wk.keep(j, "decrypted stream contents", pt)
 			if !bytes.Equal(pt, msgs[j]) {
 				return fmt.Sprintf("WRONG-PLAINTEXT(len %d for %d)", len(pt), len(msgs[j]))
 			}
@@ -850,6 +913,10 @@ func runCase(c Case, ks *keyStore) (r Result) {
 		c.MaxMs = 5000
 	}
 	soloFirst := !c.SoloAfter || c.Mode == "split" // split needs inputs prepared alone
+	r.Procs = runtime.GOMAXPROCS(0)
+	if c.Procs > 0 {
+		r.Procs = c.Procs // set for the phase in which several callers are active
+	}
 	ws := make([]*worker, c.G)
 	for w := range ws {
 		wk, err := mkWorker(c, w, ks)
@@ -860,6 +927,17 @@ func runCase(c Case, ks *keyStore) (r Result) {
 		ws[w] = wk
 		r.Algs = append(r.Algs, wk.alg)
 	}
+	// kept results (Hold): worker w's store is touched by the goroutine that runs worker w only; everything is looked
+	// at again from this goroutine when nothing else runs (after the runs alone, after every phase)
+	keeps := make([]*keeper, c.G)
+	if c.Hold {
+		for w := range ws {
+			k := &keeper{w: w, items: map[string]*kept{}}
+			keeps[w] = k
+			ws[w].keep = k.keep
+		}
+	}
+	var keptBad []Diff // differences seen in kept results (filled under mu once goroutines run)
 	// alone: one worker after the other, nothing else running
 	solo := make([][]string, c.G)
 	soloMid := make([][]any, c.G)
@@ -886,9 +964,30 @@ func runCase(c Case, ks *keyStore) (r Result) {
 			r.Alone = append(r.Alone, solo[w][0])
 		}
 	}
+	// recheckAll: every kept result of every caller, from this goroutine, while nothing else runs
+	recheckAll := func(when string) bool {
+		ok := true
+		for w, k := range keeps {
+			if k == nil {
+				continue
+			}
+			if d := k.recheck(); d != nil {
+				ok = false
+				r.NDiffs++
+				if len(r.Diffs) < 4 {
+					r.Diffs = append(r.Diffs, Diff{w, d.j, ws[w].alg, "kept " + d.name + ", looked at again " + when, d.was, d.now})
+				}
+			}
+		}
+		return ok
+	}
 	if soloFirst {
 		runAlone()
 		if r.SoloBad != "" {
+			return
+		}
+		// the runs alone are themselves a history "caller 0 finished, then caller 1 ran, ...": what caller 0 was given must still be there
+		if !recheckAll("after the other callers had run alone, one after the other") {
 			return
 		}
 	}
@@ -951,16 +1050,38 @@ func runCase(c Case, ks *keyStore) (r Result) {
 	more := func(i int) bool {
 		return i < c.Iters && !stop.Load() && (i%8 != 0 || time.Now().Before(deadline))
 	}
+	// ownKept: after each of its calls a goroutine looks at what it still keeps from earlier calls (false = changed)
+	ownKept := func(w int, after string) bool {
+		if keeps[w] == nil {
+			return true
+		}
+		d := keeps[w].takeBad()
+		if d == nil {
+			d = keeps[w].recheck()
+		}
+		if d == nil {
+			return true
+		}
+		mu.Lock()
+		keptBad = append(keptBad, Diff{w, d.j, ws[w].alg, "kept " + d.name + ", looked at again by its owner after its own " + after + " call while the other goroutines were running", d.was, d.now})
+		mu.Unlock()
+		stop.Store(true)
+		return false
+	}
 	doA := func(w, j int) (any, string) {
 		enter()
 		mid, res := guardA(ws[w], j)
 		leave()
+		if !ownKept(w, "stage-A") && res == "" {
+			res = "KEPT-RESULT-CHANGED"
+		}
 		return mid, res
 	}
 	doB := func(w, j int, mid any) string {
 		enter()
 		res := guardB(ws[w], j, mid)
 		leave()
+		ownKept(w, "stage-B")
 		return res
 	}
 	phase := func(f func(w int)) {
@@ -996,6 +1117,87 @@ func runCase(c Case, ks *keyStore) (r Result) {
 		}
 	}
 	switch c.Mode {
+	case "sequential":
+		// no goroutines: ONE goroutine runs the calls of all callers in an order drawn from the seed (stage A of a
+		// round trip before its stage B): round 0 in a random interleaving, round 1 all A calls then all B calls,
+		// round 2 caller by caller (A;B), and so on; after EVERY call every result any caller still keeps is
+		// looked at again
+		type step struct {
+			w, j int
+			b    bool
+		}
+		srng := lib.NewRand(c.Seed*7919 + 5)
+		mids := make([][]any, c.G)
+		for w := range mids {
+			mids[w] = make([]any, c.Distinct)
+		}
+		n := 0
+	rounds:
+		for round := 0; round < c.Iters && !stop.Load() && time.Now().Before(deadline); round++ {
+			var order []step
+			var pairs []step
+			for w := 0; w < c.G; w++ {
+				for j := 0; j < c.Distinct; j++ {
+					pairs = append(pairs, step{w, j, false})
+				}
+			}
+			for i := len(pairs) - 1; i > 0; i-- {
+				k := srng.Intn(i + 1)
+				pairs[i], pairs[k] = pairs[k], pairs[i]
+			}
+			switch round % 3 {
+			case 1:
+				order = append(order, pairs...)
+				for i := len(pairs) - 1; i >= 0; i-- {
+					order = append(order, step{pairs[i].w, pairs[i].j, true})
+				}
+			case 2:
+				for _, p := range pairs {
+					order = append(order, p, step{p.w, p.j, true})
+				}
+			default:
+				ready := append([]step(nil), pairs...)
+				for len(ready) > 0 {
+					k := srng.Intn(len(ready))
+					st := ready[k]
+					order = append(order, st)
+					if st.b {
+						ready = append(ready[:k], ready[k+1:]...)
+					} else {
+						ready[k].b = true
+					}
+				}
+			}
+			failed := map[[2]int]bool{}
+			for _, st := range order {
+				if n > 0 {
+					overlapped.Add(1) // a call made while other callers keep results of finished calls
+				}
+				n++
+				stage, res := "A", ""
+				if !st.b {
+					mids[st.w][st.j], res = doA(st.w, st.j)
+					if res != "" {
+						failed[[2]int{st.w, st.j}] = true
+					}
+				} else {
+					if failed[[2]int{st.w, st.j}] {
+						continue
+					}
+					stage, res = "B", doB(st.w, st.j, mids[st.w][st.j])
+				}
+				if st.b || res != "" {
+					ops.Add(1)
+					if !check(st.w, round*c.Distinct+st.j, stage, res) {
+						break rounds
+					}
+				}
+				if !recheckAll(fmt.Sprintf("right after the stage-%s call of caller %d (%s, round trip %d, round %d of the sequential history)", stage, st.w, ws[st.w].alg, st.j, round)) {
+					stop.Store(true)
+					break rounds
+				}
+			}
+		}
 	case "burst":
 		type midRec struct {
 			mid    any
@@ -1049,6 +1251,17 @@ func runCase(c Case, ks *keyStore) (r Result) {
 	default:
 		phase(roundTrips)
 	}
+	// everything has finished: what every caller was given must still be what it was given
+	if len(keptBad) > 0 {
+		r.NDiffs += len(keptBad)
+		for _, d := range keptBad {
+			if len(r.Diffs) < 4 {
+				r.Diffs = append(r.Diffs, d)
+			}
+		}
+	} else if r.NDiffs == 0 {
+		recheckAll("after all calls of all callers had finished")
+	}
 	r.ElapsedMs = int(time.Since(t0).Milliseconds())
 	r.Ops = int(ops.Load())
 	r.Overlapped = int(overlapped.Load())
@@ -1057,6 +1270,9 @@ func runCase(c Case, ks *keyStore) (r Result) {
 		runAlone()
 		if r.SoloBad != "" {
 			return
+		}
+		if r.NDiffs == 0 {
+			recheckAll("after the runs alone that followed the other calls")
 		}
 		for w := range got {
 			seen := false
@@ -1074,6 +1290,82 @@ func runCase(c Case, ks *keyStore) (r Result) {
 		}
 	}
 	return
+}
+
+// ---------- kept results ----------
+
+type kept struct {
+	j       int
+	name    string
+	b, snap []byte
+}
+
+type keptDiff struct {
+	j        int
+	name     string
+	was, now string
+}
+
+// keeper: the results one caller keeps. keep() replaces the result of an earlier run of the same round trip — after
+// looking at the old one a last time.
+type keeper struct {
+	w     int
+	items map[string]*kept
+	order []string
+	bad   *keptDiff
+}
+
+func (k *keeper) keep(j int, name string, b []byte) {
+	key := fmt.Sprintf("%d/%s", j, name)
+	if old := k.items[key]; old != nil {
+		if d := old.diff(); d != nil && k.bad == nil {
+			k.bad = d
+		}
+	} else {
+		k.order = append(k.order, key)
+	}
+	k.items[key] = &kept{j, name, b, append([]byte(nil), b...)}
+}
+
+func (k *keeper) takeBad() *keptDiff {
+	d := k.bad
+	k.bad = nil
+	return d
+}
+
+func (k *keeper) recheck() *keptDiff {
+	if d := k.takeBad(); d != nil {
+		return d
+	}
+	for _, key := range k.order {
+		if d := k.items[key].diff(); d != nil {
+			return d
+		}
+	}
+	return nil
+}
+
+func (x *kept) diff() *keptDiff {
+	if bytes.Equal(x.b, x.snap) {
+		return nil
+	}
+	at := 0
+	for at < len(x.b) && x.b[at] == x.snap[at] {
+		at++
+	}
+	end := at + 8
+	if end > len(x.b) {
+		end = len(x.b)
+	}
+	changed := 0
+	for i := range x.b {
+		if x.b[i] != x.snap[i] {
+			changed++
+		}
+	}
+	return &keptDiff{x.j, x.name,
+		fmt.Sprintf("%d bytes as handed out by the library, bytes %d..%d = %x", len(x.snap), at, end, x.snap[at:end]),
+		fmt.Sprintf("%d of the %d bytes differ, bytes %d..%d = %x", changed, len(x.b), at, end, x.b[at:end])}
 }
 
 // expectedFailure: results a SUPPORTED algorithm legitimately gives alone in this generator
